@@ -265,7 +265,10 @@ where
             return Err(PlanningError::UnsampledStateSpace);
         }
 
-        let start_state = &pd.start_states[0];
+        let start_state = pd
+            .start_states
+            .first()
+            .ok_or(PlanningError::InvalidStartState)?;
         if !vc.is_valid(start_state) {
             return Err(PlanningError::InvalidStartState);
         }
